@@ -22,7 +22,8 @@ Links (assumptions): `Key.transpose_key` ↦ `e.tk`, `Sequence.sequences_split_b
 import ast
 import os
 
-from py2lean_wrap import Untranslatable, camel, class_methods, gen_wrap_fns_ctx, LEAN_OF as WRAP_LEAN_OF
+from py2lean_wrap import (Untranslatable, camel, class_methods, gen_wrap_fns_ctx, LEAN_OF as WRAP_LEAN_OF, check_decorators, defaults_of,
+                          check_pinned)
 
 REPO = os.environ.get("SCODA_REPO", "/repo")
 
@@ -47,6 +48,10 @@ CLASSES = {
     },
 }
 LEAN_CLASS = {v["lean"]: k for k, v in CLASSES.items()}
+# Sequence methods whose only effect on their receiver is the refresh of a cached view (safe to call on an object that is not written back)
+READ_ONLY_SEQ_METHODS = {"copy", "is_empty", "get_sequence_duration", "messages_rel", "messages_abs"}
+# element methods that may be called on an object reached through a loop variable (they only read it / refresh caches)
+READ_ONLY_ELEM_METHODS = {"copy", "to_sequence", "is_empty"}
 EXC = {"BarException": "Err.barError", "TrackException": "Err.sequenceError"}
 MSG_FIELDS = {"message_type": ("ty", "MType"), "channel": ("ch", "Int"), "time": ("time", "Int"), "note": ("note", "Int"),
               "velocity": ("vel", "Int"), "control": ("ctl", "Int"), "program": ("prog", "Int"),
@@ -387,6 +392,9 @@ class ElemTranslator:
             if rt == "Seq":
                 if f.attr not in WRAP_LEAN_OF or f.attr in ("abs", "rel"):
                     raise Untranslatable(f"Sequence method {f.attr} is not translated")
+                if setter is None and f.attr not in READ_ONLY_SEQ_METHODS:
+                    raise Untranslatable(f"{src}: a mutating Sequence method is called on an object reached through a loop / comprehension variable "
+                                         f"or a parameter; its effect would not be written back in the value model")
                 sig = self.G["wrap_sigs"][f.attr]
                 args = self.bind_args(sig, n, ind, f"Sequence.{f.attr}")
                 gen = f.attr in ("messages_abs", "messages_rel")
@@ -445,6 +453,9 @@ class ElemTranslator:
         if recv is None:
             raise Untranslatable(f"instance method {cls}.{meth} called on the class")
         rv, setter = recv
+        if setter is None and meth not in READ_ONLY_ELEM_METHODS:
+            raise Untranslatable(f"{cls}.{meth} is called on an object reached through a loop / comprehension variable or a parameter; its effect "
+                                 f"would not be written back in the value model")
         self.emit(ind, f"let {t} ← {info['lean']} e {rv} {' '.join(args)}".rstrip())
         if setter is not None:
             self.emit(ind, setter(f"{t}.1"))
@@ -592,6 +603,7 @@ def method_sig(cls, fn, static):
 def gen_elem_fns():
     _, wctx, wrets = gen_wrap_fns_ctx()
     G = {"wrap_sigs": wctx.wrapper_sigs, "wrap_rets": wrets, "elem": {}}
+    defaults = []
     out = []
     names = []
     # order: Bar.to_sequence before Track (Track.__init__ calls it); Bar.__init__ before Bar.copy
@@ -606,6 +618,8 @@ def gen_elem_fns():
         if meth not in cache[cls]:
             raise Untranslatable(f"{cls}.{meth} not found")
         fn = cache[cls][meth]
+        check_decorators(fn, f"{cls}.{meth}")
+        defaults += defaults_of(cls, fn)
         lean = dict(cfg["methods"])[meth]
         static = any(ast.unparse(d) == "staticmethod" for d in fn.decorator_list)
         sig = method_sig(cls, fn, static)
@@ -631,6 +645,8 @@ def gen_elem_fns():
         "",
     ]
     tail = "def translated : List String := [" + ", ".join(f'"{x}"' for x in names) + "]\n"
+    tail += "\n/-- every default argument of the translated methods, as written in the source -/\n"
+    tail += "def defaults : List String := [" + ", ".join('"' + d.replace('"', "'") + '"' for d in defaults) + "]\n"
     return "\n".join(head) + "\n" + "\n".join(out) + "\n" + tail + "\nend SCoda.Gen.Elem\n"
 
 
